@@ -211,6 +211,9 @@ def extraction(rep, mod):
 
 def twins(rep, mod):
     rep.rule('C18.twins', 'scan-load assembly of tests and tests_loc are identical; responses is their mirror (so_ports/unload/po_map)')
+    from checks import c18_twins_eval
+    if c18_twins_eval.decide(rep, rep.repo):
+        return          # decided by evaluating tests / tests_loc / responses on a stand-in pattern set
     a, b = mod.func('StilFile.tests'), mod.func('StilFile.tests_loc')
     def load_block(f, arr):
         for lp in find_all(f, ast.For):
